@@ -142,9 +142,11 @@ func VerifCollectionCommit() {
 	vplan = &verifPlan{}
 	maxCalls := vp.Bound("CALLS")
 	if vp.Bool() {
-		vplan.failAt[0] = vp.IntRange(1, maxCalls)
+		// the numbers of the failing calls are solver variables
+		vplan.failAt[0] = vp.IntIn(1, maxCalls)
 		if vp.Bool() {
-			vplan.failAt[1] = vp.IntRange(vplan.failAt[0]+1, maxCalls+6)
+			vplan.failAt[1] = vp.IntIn(2, maxCalls+6)
+			vp.Assume(vplan.failAt[1] > vplan.failAt[0])
 		}
 	}
 	err = commitCollectionFonts(fontDir, staging, results, verifCollectionOps())
@@ -202,7 +204,7 @@ func VerifGobDurable() {
 	before := verifTree(dir)
 	vplan = &verifPlan{}
 	if vp.Bool() {
-		vplan.failAt[0] = vp.IntRange(1, vp.Bound("CALLS"))
+		vplan.failAt[0] = vp.IntIn(1, vp.Bound("CALLS")) // solver variable
 	}
 	d := &verifDurability{written: map[string]bool{}, publishedOK: true}
 	real := defaultGobPersistenceOperations()
